@@ -237,7 +237,13 @@ macro_rules! print {
 
 // ------------------------------------------------------------------------------------ stdin
 
+/// Stands in a scripted input line for a byte sequence that is not valid UTF-8 (a flipped bit
+/// on the pipe, a GUI writing Latin-1): `read_line` then behaves as std's does - the line is
+/// consumed, the buffer is left as it was, and `Err(InvalidData)` is returned.
+pub const INVALID_UTF8_MARK: char = '\u{F8FF}';
+
 pub mod io {
+    pub use std::io::{BufRead, Error, ErrorKind, Read, Result, Write};
     pub struct Stdin;
     pub struct StdinLock;
     pub fn stdin() -> Stdin {
@@ -319,6 +325,7 @@ pub mod io {
         /// remaining bytes without one; then Ok(0) for ever.
         pub fn read_line(&mut self, buf: &mut String) -> std::io::Result<usize> {
             match super::with_sim(|t| t.read_line()) {
+                Some(s) if s.contains(super::INVALID_UTF8_MARK) => Err(std::io::Error::new(std::io::ErrorKind::InvalidData, "stream did not contain valid UTF-8")),
                 Some(s) => {
                     buf.push_str(&s);
                     Ok(s.len())
